@@ -451,7 +451,10 @@ def run_harness(h, pool, tier):
             os.remove(json_out)
         uws = resolve_unwindset(h, tdir, log_path)
         cmd = kani_cmd(h, tdir, json_out, unwindset=uws)
-        rc, to, wall = run_proc(cmd, base_env(), log_path, h["timeout"], h["mem"])
+        # hard cap = twice the expected peak (the annotation, used for scheduling) and at least 12 GB:
+        # a changed tree may need more than the unchanged one, and running out of memory is
+        # reported as inconclusive, which would hide a violation
+        rc, to, wall = run_proc(cmd, base_env(), log_path, h["timeout"], max(2 * h["mem"], 12))
         res = classify(h, rc, to, wall, json_out, log_path)
         if uws:
             res["unwindset"] = uws
@@ -740,7 +743,7 @@ def write_evidence(prop, tier, seed, sel, results, confirmed, known_hits, inconc
                 "solver_stats": r.get("stats", {}),
                 "wall_s": r.get("wall_s"),
                 "peak_rss_mb": r.get("peak_rss_mb"),
-                "cap": {"timeout_s": h["timeout"], "mem_gb": h["mem"]},
+                "cap": {"timeout_s": h["timeout"], "mem_gb": max(2 * h["mem"], 12)},
             }
         )
     samples = list(hs)
